@@ -18,7 +18,8 @@ import (
 // c15: fractal heap histories.
 // case:   {"bs":64,"ops":[{"op":"ins","data":hex}|{"op":"get","id":hex}|{"op":"ovw","id":hex,"data":hex}|
 //                         {"op":"del","id":hex}|{"op":"sl"}], "final_ids":[hex...]}
-//         an op may carry "ref":k instead of "id": the id returned by the insert at op index k.
+//         an op may carry "ref":k instead of "id": the id returned by the insert at op index k
+//         ("skip" result when that insert failed); "final_refs" does the same for the reader list.
 // result: {"ops":[{"ok","id"|"data"|"err"|"hdr","blk","same","st"}...], "final":{...}, "store":{...},
 //          "readers":[{"id","ro":{"ok","data"},"core":{"ok","data"}}...]}
 // "same" = the complete in-memory heap state is identical before and after the op;
@@ -35,6 +36,7 @@ type c15Case struct {
 	BS       uint64   `json:"bs"`
 	Ops      []c15Op  `json:"ops"`
 	FinalIDs []string `json:"final_ids"`
+	FinalRef []int    `json:"final_refs"` // ids returned by the inserts at these op indices
 	NoBytes  bool     `json:"nobytes"` // do not echo serialised block bytes of mid-history stores (large blocks)
 }
 
@@ -259,10 +261,16 @@ func init() {
 			return out, nil
 		}
 		out["store"] = map[string]interface{}{"ok": true, "hdr": hex.EncodeToString(hb), "blk": hex.EncodeToString(bb),
-			"hdr_addr": addr, "blk_addr": heap.Header.RootBlockAddress}
+			"blkcrc": crc32.ChecksumIEEE(bb), "hdr_addr": addr, "blk_addr": heap.Header.RootBlockAddress}
 		var readers []map[string]interface{}
 		ro, roErr := structures.OpenFractalHeap(mem, addr, sb.LengthSize, sb.OffsetSize, sb.Endianness)
-		for _, ids := range c.FinalIDs {
+		finalIDs := append([]string(nil), c.FinalIDs...)
+		for _, k := range c.FinalRef {
+			if id, ok := insIDs[k]; ok {
+				finalIDs = append(finalIDs, hex.EncodeToString(id))
+			}
+		}
+		for _, ids := range finalIDs {
 			id, err := hex.DecodeString(ids)
 			if err != nil {
 				return nil, err
